@@ -311,6 +311,7 @@ access(all) contract Ent {
 }
 
 type scnStep struct {
+	SameEngineOnly bool
 	Kind   string // "tx" | "script"
 	Src    string
 	Expect []string // expected logs ("" entries are not checked); nil = differential only
@@ -829,6 +830,25 @@ var scenarios = []scenario{
         log(ref.one())`, age, age)), Expect: []string{fmt.Sprint(age + 1), fmt.Sprint(age + 1)}},
 		}
 	}},
+	{"recursion-near-limit", func(r *Rng) []scnStep {
+		lim := scnDepthLimit
+		steps := []scnStep{
+			// overflows: aborted with the whole call stack in place
+			{Kind: "script", Src: scnScript("import World from 0x1\n", "Int", fmt.Sprintf("    return World.rec(%d, false)", lim+20+r.Intn(60))), Fails: "CallStackLimitExceededError"},
+		}
+		if r.Intn(2) == 0 {
+			steps = append(steps, scnStep{Kind: "tx", Src: scnTx(impW, fmt.Sprintf("        log(World.rec(%d, false))", lim+5+r.Intn(10))), Fails: "CallStackLimitExceededError"})
+		}
+		// a few frames below the limit: where exactly the limit bites is the engine's business, but every node of one engine must
+		// agree, whatever it executed (and aborted) before
+		for _, j := range []int{30, 14, 9, 6, 4, 3, 2, 1, 0, -1, -2, -3} {
+			if r.Intn(3) == 0 {
+				continue
+			}
+			steps = append(steps, scnStep{Kind: "script", Src: scnScript("import World from 0x1\n", "Int", fmt.Sprintf("    return World.rec(%d, false)", lim-j)), SameEngineOnly: true})
+		}
+		return steps
+	}},
 	{"resource-juggling", func(r *Rng) []scnStep {
 		a, b := r.Intn(100), 100+r.Intn(100)
 		return []scnStep{{Kind: "tx", Src: scnTx(impW+"import Far from 0x9\nimport Holder from 0x9\n", fmt.Sprintf(`        var x <- Far.mk(%d)
@@ -988,6 +1008,9 @@ type scnState struct {
 	pending []Step
 }
 
+// scnDepthLimit: the call-depth limit configured on every node of the plan being generated (set by the generator)
+var scnDepthLimit = 2000
+
 // next returns the next scenario step (starting a new scenario when none is in progress).
 func (s *scnState) next(r *Rng) Step {
 	if len(s.pending) == 0 {
@@ -997,7 +1020,7 @@ func (s *scnState) next(r *Rng) Step {
 			if st.Kind == "script" {
 				kind = "rawscript"
 			}
-			s.pending = append(s.pending, Step{Kind: kind, Name: fmt.Sprintf("scn:%s:%d", sc.Name, k), Source: st.Src, Signers: []uint64{ScnAcct}, Expect: st.Expect, Fails: st.Fails, HasExpect: st.Expect != nil})
+			s.pending = append(s.pending, Step{Kind: kind, Name: fmt.Sprintf("scn:%s:%d", sc.Name, k), Source: st.Src, Signers: []uint64{ScnAcct}, Expect: st.Expect, Fails: st.Fails, HasExpect: st.Expect != nil, SameEngineOnly: st.SameEngineOnly})
 		}
 	}
 	st := s.pending[0]
